@@ -9,11 +9,15 @@ from gen import clone_any, dense_of, exact_equal, close
 
 def J(*parts):
     out = []
-    for p in parts:
+
+    def rec(p):
         if isinstance(p, (list, tuple)):
-            out += [str(q) for q in p]
+            for q in p:
+                rec(q)
         else:
             out.append(str(p))
+    for p in parts:
+        rec(p)
     return " ".join(out)
 
 
